@@ -328,6 +328,77 @@ def m_pack_keypress(sx):
     sx.check(all_eq((h._sequence, h.pack_type, h.keycode), (seq, pt, key)), "rt.spack-key.fields")
 
 
+def m_pack_sequence(sx):
+    """a long-lived peer instance (as the simulator registers) decodes every message from the message alone:
+    two SPACK messages of any kinds in a row on the same handler object"""
+    import geckolib.driver.protocol as P
+    from sx.loader import STRUCT_SHIM as S
+    h = P.GeckoPackCommandProtocolHandler()
+    for step in range(2):
+        kind = sx.choice(f"kind{step}", 3)
+        seq, pt = sx.byte(f"seq{step}"), sx.byte(f"pt{step}")
+        if kind == 0:
+            key = sx.byte(f"key{step}")
+            m = P.GeckoPackCommandProtocolHandler.keypress(seq, pt, key, parms=PARMS)
+        else:
+            pos = sx.word(f"pos{step}")
+            val = sx.int_(f"val{step}", 0, 255 if kind == 1 else 65535)
+            m = P.GeckoPackCommandProtocolHandler.set_value(seq, pt, 1, 2, pos, kind, val, parms=PARMS)
+        sx.check(h.can_handle(m._content, SENDER), "rt.spack-seq.claimed")
+        h.handle(m._content, SENDER)
+        sx.observe(f"kinds{step}", (h.is_key_press, h.is_set_value))
+        if kind == 0:
+            sx.check(h.is_key_press and not h.is_set_value, f"rt.spack-seq.kind.step{step}",
+                     lambda: f"key={h.is_key_press} set={h.is_set_value}")
+            sx.check(all_eq((h._sequence, h.pack_type, h.keycode), (seq, pt, key)), f"rt.spack-seq.fields.step{step}")
+        else:
+            sx.check(h.is_set_value and not h.is_key_press, f"rt.spack-seq.kind.step{step}",
+                     lambda: f"key={h.is_key_press} set={h.is_set_value}")
+            sx.check(all_eq((h._sequence, h.pack_type, h.position), (seq, pt, pos)), f"rt.spack-seq.fields.step{step}")
+            sx.check(h.new_data == S.pack(">B" if kind == 1 else ">H", val), f"rt.spack-seq.data.step{step}")
+
+
+def m_other_sequences(sx):
+    """same-instance sequences for the other multi-verb handlers"""
+    import geckolib.driver.protocol as P
+    from sx.loader import STRUCT_SHIM as S
+    which = sx.choice("which", 3)
+    if which == 0:
+        h = P.GeckoWatercareProtocolHandler()
+        order = [(b"GETWC", False), (b"REQWC", True)]
+        if sx.choice("swap", 2):
+            order.reverse()
+        for verb, sched in order:
+            seq = sx.byte(f"seq_{verb.decode()}")
+            h.handle(verb + S.pack(">B", seq), SENDER)
+            sx.check((h._sequence == seq) & (h.schedule is sched), "rt.seq.watercare")
+        mode = sx.byte("mode")
+        h.handle(b"WCGET" + S.pack(">B", mode), SENDER)
+        sx.check((h.mode == mode) & (h.schedule is False), "rt.seq.watercare-response")
+    elif which == 1:
+        h = P.GeckoStatusBlockProtocolHandler()
+        for step in range(2):
+            if sx.choice(f"statv{step}", 2):
+                i, n = sx.byte(f"i{step}"), sx.byte(f"n{step}")
+                d = sx.bytes_(f"d{step}", 3)
+                h.handle(b"STATV" + S.pack(">BBB", i, n, 3) + d, SENDER)
+                sx.check(all_eq((h.sequence, h.next, h.length), (i, n, 3)) & (h.data == d), "rt.seq.statv")
+            else:
+                q, st, ln = sx.byte(f"q{step}"), sx.word(f"st{step}"), sx.word(f"ln{step}")
+                h.handle(b"STATU" + S.pack(">B", q) + S.pack(">HH", st, ln), SENDER)
+                sx.check(all_eq((h.sequence, h.start, h.length), (q, st, ln)), "rt.seq.statu")
+    else:
+        h = P.GeckoHelloProtocolHandler(b"")
+        msgs = [(b"<HELLO>1</HELLO>", "b"), (b"<HELLO>IOSabc</HELLO>", "c"), (b"<HELLO>SPA01|My Spa</HELLO>", "s")]
+        for step in range(2):
+            data, k = msgs[sx.choice(f"m{step}", 3)]
+            h.handle(data, SENDER)
+            sx.check(h.was_broadcast_discovery == (k == "b"), "rt.seq.hello-broadcast")
+            sx.check((h._client_identifier == b"IOSabc") if k == "c" else (h._client_identifier is None), "rt.seq.hello-client")
+            sx.check((h._spa_identifier == b"SPA01" and h._spa_name == "My Spa") if k == "s"
+                     else (h._spa_identifier is None and h._spa_name is None), "rt.seq.hello-spa")
+
+
 def m_watercare(sx):
     import geckolib.driver.protocol as P
     from sx.loader import STRUCT_SHIM as S
@@ -470,6 +541,8 @@ def units(tier):
     yield Unit("msg.pack-set-value", m_pack_set_value)
     yield Unit("msg.pack-keypress", m_pack_keypress)
     yield Unit("msg.watercare", m_watercare)
+    yield Unit("msg.pack-sequence", m_pack_sequence)
+    yield Unit("msg.other-sequences", m_other_sequences)
     yield Unit("msg.reminders", m_reminders(tier))
     yield Unit("msg.hello", m_hello, max_paths=50000)
     lens = 7 if tier == "quick" else 49
